@@ -119,6 +119,136 @@ func init() {
 		}, nil
 	})
 
+	flagBytes := func(fs ...uint64) []byte {
+		out := make([]byte, len(fs))
+		for i, f := range fs {
+			out[i] = byte(f)
+		}
+		return out
+	}
+	// predicates on secret values (their results are published, the path taken must not tell more)
+	register("fe.preds", func(args [][]byte) (func() func() [][]byte, error) {
+		if err := need(args, 2); err != nil {
+			return nil, err
+		}
+		a, err := fe(args[0])
+		if err != nil {
+			return nil, err
+		}
+		b, err := fe(args[1])
+		if err != nil {
+			return nil, err
+		}
+		return func() func() [][]byte {
+			out := flagBytes(a.Equal(b), a.IsZero(), a.IsOdd(), b.IsOdd())
+			return one(out)
+		}, nil
+	})
+	register("sc.preds", func(args [][]byte) (func() func() [][]byte, error) {
+		if err := need(args, 2); err != nil {
+			return nil, err
+		}
+		a, err := sc(args[0])
+		if err != nil {
+			return nil, err
+		}
+		b, err := sc(args[1])
+		if err != nil {
+			return nil, err
+		}
+		return func() func() [][]byte {
+			out := flagBytes(a.Equal(b), a.IsZero(), a.IsGreaterThanHalfN(), b.IsGreaterThanHalfN())
+			return one(out)
+		}, nil
+	})
+	// conditional point operations with a secret control bit (public points)
+	register("point.cond", func(args [][]byte) (func() func() [][]byte, error) {
+		if err := need(args, 3); err != nil {
+			return nil, err
+		}
+		p, err := pt(args[0])
+		if err != nil {
+			return nil, err
+		}
+		q, err := pt(args[1])
+		if err != nil {
+			return nil, err
+		}
+		if len(args[2]) != 1 || args[2][0] > 1 {
+			return nil, errors.New("control must be one byte, 0 or 1")
+		}
+		ctrl := uint64(args[2][0])
+		r1, r2 := newRcvr(), secp256k1.NewIdentityPoint()
+		return func() func() [][]byte {
+			r1.ConditionalSelect(p, q, ctrl)
+			r2.ConditionalNegate(q, ctrl)
+			return func() [][]byte { return [][]byte{r1.UncompressedBytes(), r2.UncompressedBytes()} }
+		}, nil
+	})
+	// comparing and exporting private keys
+	register("priv.equal", func(args [][]byte) (func() func() [][]byte, error) {
+		if err := need(args, 2); err != nil {
+			return nil, err
+		}
+		k1, err := secec.NewPrivateKey(args[0])
+		if err != nil {
+			return nil, err
+		}
+		k2, err := secec.NewPrivateKey(args[1])
+		if err != nil {
+			return nil, err
+		}
+		return func() func() [][]byte {
+			eq := k1.Equal(k2)
+			raw, scl := k1.Bytes(), k1.Scalar()
+			return func() [][]byte {
+				f := byte(0)
+				if eq {
+					f = 1
+				}
+				return [][]byte{{f}, raw, scl.Bytes()}
+			}
+		}, nil
+	})
+	register("schnorr.priv.equal", func(args [][]byte) (func() func() [][]byte, error) {
+		if err := need(args, 2); err != nil {
+			return nil, err
+		}
+		k1, err := bitcoin.NewSchnorrPrivateKey(args[0])
+		if err != nil {
+			return nil, err
+		}
+		k2, err := bitcoin.NewSchnorrPrivateKey(args[1])
+		if err != nil {
+			return nil, err
+		}
+		return func() func() [][]byte {
+			eq := k1.Equal(k2)
+			raw, scl := k1.Bytes(), k1.Scalar()
+			return func() [][]byte {
+				f := byte(0)
+				if eq {
+					f = 1
+				}
+				return [][]byte{{f}, raw, scl.Bytes()}
+			}
+		}, nil
+	})
+	// Schnorr key derivation from an existing ECDSA key
+	register("schnorr.fromecdsa", func(args [][]byte) (func() func() [][]byte, error) {
+		if err := need(args, 1); err != nil {
+			return nil, err
+		}
+		k, err := secec.NewPrivateKey(args[0])
+		if err != nil {
+			return nil, err
+		}
+		return func() func() [][]byte {
+			sk := bitcoin.NewSchnorrPrivateKeyFromECDSA(k)
+			return func() [][]byte { return [][]byte{sk.PublicKey().Bytes()} }
+		}, nil
+	})
+
 	// ---- point multiplication ----
 	register("scalarmult", func(args [][]byte) (func() func() [][]byte, error) {
 		if err := need(args, 2); err != nil {
